@@ -466,8 +466,11 @@ async def amain(spec, acc, ctx, virtual=True):
         for i in range(spec["sequences"]):
             if ctx.out_of_time() or acc.counters.get("timeouts", 0) > 3 or acc.n_violations > 25:
                 break
-            n = ctx.rng.randint(4, 12)
+            n = ctx.rng.randint(4, 12) if i % 5 else ctx.rng.randint(20, 40)   # every fifth: a long conversation
             sq = [ctx.rng.choice(SYMS) for _ in range(n)]
+            if n >= 20:
+                acc.count("long_sequences")
+                sq = ["c1"] + sq[:5] + ["u1"] + sq[5:]
             await retry_on_timeout(acc, lambda: r.run_sequence(sq, gated=[False, True, "late"][i % 3]))
     await server.stop()
 
